@@ -13,12 +13,22 @@ Profiles == {
 M == R(2)              \* stand-in for Md/Mw
 G == R(8)              \* stand-in for g
 Rv == Frac(1, 2)       \* stand-in for the gas constant of water vapour
+\* every profile also in the opposite order (top of the atmosphere first, pressure INCREASING along the grid)
+RevProf(pr) == [p |-> Rev(pr.p), T |-> Rev(pr.T), vmr |-> Rev(pr.vmr), z |-> Rev(pr.z)]
+AllProfiles == Profiles \cup {RevProf(pr) : pr \in Profiles}
+Decreasing(pr) == \A k \in 2..Len(pr.p) : Lt(pr.p[k], pr.p[k-1])
 VARIABLE prof
-AInit == prof \in Profiles /\ x = <<0, 1>> /\ y1 = <<0, 0>> /\ y2 = <<0, 0>>
+AInit == prof \in AllProfiles /\ x = <<0, 1>> /\ y1 = <<0, 0>> /\ y2 = <<0, 0>>
 ANext == UNCHANGED <<prof, x, y1, y2>>
 Qs(pr) == [i \in 1..Len(pr.p) |-> Frac(i, 64)]           \* a stand-in saturation specific humidity profile
-NonNegative == ~Lt(IwvH(prof.vmr, prof.p, M, G), R(0))
-HeightMonotone == LET h == Heights(prof.p, prof.T) IN h[1] = R(0) /\ \A k \in 2..Len(h) : Lt(h[k-1], h[k])
+NonNegative == Decreasing(prof) => ~Lt(IwvH(prof.vmr, prof.p, M, G), R(0))
+\* the height starts at 0 and increases strictly with DECREASING pressure - in whichever order the grid is given; the
+\* heights of the reversed grid are the mirror image of the original ones
+HeightMonotone == LET h == Heights(prof.p, prof.T) n == Len(prof.p) hr == Heights(Rev(prof.p), Rev(prof.T)) IN
+                     /\ h[1] = R(0)
+                     /\ \A k \in 2..n : /\ (Lt(prof.p[k], prof.p[k-1]) => Lt(h[k-1], h[k]))
+                                          /\ (Lt(prof.p[k-1], prof.p[k]) => Lt(h[k], h[k-1]))
+                     /\ \A k \in 1..n : hr[k] = Sub(h[n + 1 - k], h[n])
 CrhLaws == /\ Crh(Qs(prof), Qs(prof), prof.p) = R(1)
            /\ Crh([i \in 1..Len(prof.p) |-> Mul(Frac(1, 4), Qs(prof)[i])], Qs(prof), prof.p) = Frac(1, 4)
 AEmit == PrintT(<<"CASE", ToJson([p |-> prof.p, T |-> prof.T, vmr |-> prof.vmr, z |-> prof.z,
